@@ -79,7 +79,10 @@ class Contract:
     def lift_local(self, sort, v):
         if sort.startswith('opt:') and not v.sort.startswith('opt:'):
             inner = sort[4:]
-            if v.sort == 'none': return Val(sort, (z3.BoolVal(True), E.named(inner, 'dead')))
+            if v.sort == 'none':
+                try: dead = E.named(inner, 'dead')
+                except NotImplementedError: dead = Val(inner, x={})
+                return Val(sort, (z3.BoolVal(True), dead))
             if v.sort == inner: return Val(sort, (z3.BoolVal(False), v))
         return v
 
